@@ -78,10 +78,15 @@ func c09env(c *h.Ctx, idx int, staged bool, assign string, r *h.Rand, special bo
 		}
 	}
 	// env_file
-	var ef []string
+	var ef, efLast []string
 	for _, k := range sortedKeys(defs[2]) {
-		ef = append(ef, k+"="+defs[2][k])
+		if wantLevel[k] == "envfile" {
+			efLast = append(efLast, k+"="+defs[2][k]) // names that nothing above the env_file defines go last
+		} else {
+			ef = append(ef, k+"="+defs[2][k])
+		}
 	}
+	ef = append(ef, efLast...)
 	envText := strings.Join(ef, "\n")
 	if idx%2 == 0 {
 		envText += "\n" // every second case: no newline after the last line of the env_file
